@@ -87,9 +87,9 @@ def scan_runs(p):
         if ctx in ('plain', 'root'):
             # the same pipeline object is subscribed twice: a second subscription is a new lifetime and must start from a fresh seed
             pipe_op = op if ctx == 'plain' else rs.state.with_memory_store([op])
-            if items:
-                D.abort_first(pipe_op, items[:1])      # a subscription of the same operator objects that ended with an rx-level error (no key completion)
-            obs = D.src(items).pipe(pipe_op)
+            # the same observable object: a first subscription that ends with an rx-level error after one item (no key completion), then two clean ones
+            obs = D.flaky_src(items, 1).pipe(pipe_op)
+            obs.subscribe(on_next=lambda i: None, on_error=lambda e: None)
             exp = fold(items, f, mkseed, reduce, term, snap)
             for sub in (1, 2):
                 got = []
